@@ -19,6 +19,7 @@ import (
 	"github.com/ipfs/go-cid"
 	"github.com/ipld/go-ipld-prime"
 	"github.com/ipld/go-ipld-prime/codec/dagcbor"
+	"github.com/ipld/go-ipld-prime/node/basicnode"
 
 	"github.com/ucan-wg/go-ucan/pkg/command"
 	"github.com/ucan-wg/go-ucan/pkg/container"
@@ -554,6 +555,62 @@ func init() {
 						} else if _, rid, rerr := token.FromSealed(got); rerr != nil || rid != wid {
 							rep.violation(map[string]any{"api": "ToSealedWriter", "writer": sk.name, "token": t.typ + "/" + t.alg}, "written bytes unseal under the reported CID", fmt.Sprint(rid, rerr),
 								"what ToSealedWriter ("+sk.name+") wrote does not unseal under the CID it reported")
+						}
+					}
+					// the same signed content behind other bytes that need no key: a self-described-CBOR tag in front of the sealed
+					// bytes, the signature with zero bytes put in front of it / its own leading zero byte taken away. Where such bytes are
+					// accepted at all, every API reports THEIR content address; a re-spelt signature is not accepted
+					{
+						tagged := append([]byte{0xd9, 0xd9, 0xf7}, t.sealed...)
+						wantT := manualCid(tagged)
+						for api, f := range map[string]func() (cid.Cid, error){
+							"token.FromSealed":       func() (cid.Cid, error) { _, c, e := token.FromSealed(tagged); return c, e },
+							"token.FromSealedReader": func() (cid.Cid, error) { _, c, e := token.FromSealedReader(bytes.NewReader(tagged)); return c, e },
+							"typed FromSealed": func() (cid.Cid, error) {
+								if t.typ == "dlg" {
+									_, c, e := delegation.FromSealed(tagged)
+									return c, e
+								}
+								_, c, e := invocation.FromSealed(tagged)
+								return c, e
+							},
+							"typed FromSealedReader": func() (cid.Cid, error) {
+								if t.typ == "dlg" {
+									_, c, e := delegation.FromSealedReader(bytes.NewReader(tagged))
+									return c, e
+								}
+								_, c, e := invocation.FromSealedReader(bytes.NewReader(tagged))
+								return c, e
+							},
+						} {
+							rep.Evaluations++
+							if id, err := f(); err == nil && !bytes.Equal(id.Bytes(), wantT) {
+								rep.violation(map[string]any{"api": api, "token": t.typ + "/" + t.alg, "variant": "self-described CBOR tag in front"}, fmt.Sprintf("%x", wantT), fmt.Sprintf("%x", id.Bytes()),
+									api+" reports a CID that is not the content address of the (accepted) bytes it was given")
+							}
+						}
+						if parts, err := partsOf(t.sealed, t.typ); err == nil {
+							if sig, err := parts.sig.AsBytes(); err == nil {
+								resp := map[string][]byte{"one zero byte in front": append([]byte{0}, sig...), "two zero bytes in front": append([]byte{0, 0}, sig...)}
+								if len(sig) > 0 && sig[0] == 0 {
+									resp["its leading zero byte removed"] = sig[1:]
+								}
+								for what, s2 := range resp {
+									parts.sig = basicnode.NewBytes(s2)
+									b2, err := ipld.Encode(parts.node(), dagcbor.Encode)
+									if err != nil {
+										continue
+									}
+									for _, r := range append(decodeAll(t.typ, nil, b2, nil), decodeAll("generic", nil, b2, nil)...) {
+										rep.Evaluations++
+										if r.err == nil && r.tok != nil {
+											rep.violation(map[string]any{"api": r.name, "token": t.typ + "/" + t.alg, "signature": what}, "rejected", "a token",
+												r.name+" accepts the token with its signature re-spelt (a second byte string, hence CID, without the key)")
+											break
+										}
+									}
+								}
+							}
 						}
 					}
 					// sealed bytes followed by anything are another byte string: no decoder takes it for the token (it would carry
